@@ -10,6 +10,7 @@ import (
 	"encoding/json"
 	"fmt"
 	"os"
+	"strings"
 	"syscall"
 	"unsafe"
 )
@@ -163,8 +164,19 @@ func Region(label string, base, capacity uintptr, init int) []byte {
 	}
 	buf := rawSlice(r.base, n)
 	if hx, ok := rf.Regions[label]; ok {
-		data, _ := hex.DecodeString(hx)
-		copy(buf, data)
+		if strings.HasPrefix(hx, "sparse:") {
+			// huge regions: offset=byte pairs, everything else zero (fresh anonymous pages)
+			for _, kv := range strings.Split(hx[len("sparse:"):], ",") {
+				var off uint64
+				var b uint8
+				if _, err := fmt.Sscanf(kv, "%x=%x", &off, &b); err == nil && off < uint64(len(buf)) {
+					buf[off] = b
+				}
+			}
+		} else {
+			data, _ := hex.DecodeString(hx)
+			copy(buf, data)
+		}
 	}
 	return buf
 }
